@@ -250,6 +250,10 @@ func newLoopEnv() (*loopEnv, error) {
 		return nil, err
 	}
 	e.servers["https"] = s
+	if s, err = loopnet.ServeDoH3(pki, h); err != nil {
+		return nil, err
+	}
+	e.servers["h3"] = s
 	if s, err = loopnet.ServeDoQ(pki, h); err != nil {
 		return nil, err
 	}
